@@ -408,6 +408,21 @@ class SymDict(ModelObj):
     def do_copy(self, I):
         return SymDict(self.dom, self.val, self.ksort, self.vsort, self.wrap)
 
+    def do_update(self, I, other):
+        """D.update(O) for a symbolic O over the same keys: O's entries win"""
+        if isinstance(other, SymDict) and other.ksort == self.ksort:
+            k = z3.Const("k!upd", self.ksort)
+            ov = z3.Select(other.val, k)
+            if other.vsort != self.vsort:
+                ov = to_z3(ov, self.vsort)
+            d0, v0 = self.dom, self.val
+            self.dom = z3.Lambda([k], z3.Or(z3.Select(d0, k), z3.Select(other.dom, k)))
+            self.val = z3.Lambda([k], z3.If(z3.Select(other.dom, k), ov, z3.Select(v0, k)))
+            self._enum = None
+            return
+        for kk, v in I.dict_items(other):
+            self.m_setitem(I, kk, v)
+
     def enum(self, ctx):
         """(n, ks, pos): an enumeration of the key set without repetition."""
         if self._enum is None:
@@ -448,6 +463,42 @@ class SymDict(ModelObj):
 def _val_sort():
     from .terms import Val
     return Val
+
+
+class ImageDict(ModelObj):
+    """{g(x): h(x) for x in S} over a set-like S with a key expression g that is not the loop variable: several
+    elements may produce the same key (the last one in iteration order wins).  Model: sel(k) is the element that
+    won key k;  k is a key  <=>  sel(k) in S and g(sel(k)) = k;  every element's key is a key;  D[k] = h(sel(k))."""
+
+    type_names = ("dict",)
+
+    def __init__(self, ctx, mem, esort, g, h, ksort):
+        self.ctx, self.mem, self.g, self.h = ctx, mem, g, h
+        self.sel = ctx.fresh_fun("comp_sel", ksort, esort)
+        x = z3.Const("x!img", esort)
+        sel = self.sel
+        self.dom = lambda k: z3.And(z3.Select(mem, sel(k)), g(sel(k)) == k)
+        ctx.assume(z3.ForAll([x], z3.Implies(z3.Select(mem, x), z3.And(z3.Select(mem, sel(g(x))), g(sel(g(x))) == g(x)))))
+        self.ksort = ksort
+
+    def has(self, k):
+        return self.dom(to_z3(k, self.ksort))
+
+    def m_contains(self, I, k):
+        return Sym(self.has(k))
+
+    def m_getitem(self, I, k):
+        if not I.ctx.branch(self.has(k), "key in dict"):
+            raise PyRaise(BuiltinExc("KeyError", (k,)))
+        return self.h(self.sel(to_z3(k, self.ksort)))
+
+    def do_keys(self, I):
+        return ImageKeys(self)
+
+
+class ImageKeys(ModelObj):
+    def __init__(self, d):
+        self.d = d
 
 
 class SymSet(ModelObj):
